@@ -8,6 +8,7 @@ import (
 	"net/http"
 	"net/http/httptest"
 	"net/url"
+	"os"
 	"sort"
 
 	"github.com/vulcand/oxy/v2/roundrobin"
@@ -176,36 +177,17 @@ func tierParams(tier string) (int, []int) {
 	return 3, []int{0, 1, 2, 3, 4, 6}
 }
 
-// Run: breadth-first search to fixpoint. Sharding: each worker owns the subtrees
-// below a subset of the depth-2 histories (every worker re-discovers shared
-// states; the union is the whole reachable set).
+// Run: breadth-first search to fixpoint, distributed over the workers by state hash.
 func Run(tier string, sh lib.Shard, rep *lib.Report) {
 	n, ws := tierParams(tier)
 	m := model(n, ws)
-	if sh.N > 1 {
-		// roots: all histories of length 2, distributed round-robin; shard 0 also checks the shorter ones
-		k := 0
-		for a := range m.Ops {
-			for b := range m.Ops {
-				if sh.Mine(k) {
-					m.Roots = append(m.Roots, []int{a, b})
-				}
-				k++
-			}
-		}
-		if sh.I == 0 {
-			m.Roots = append([][]int{{}}, m.Roots...)
-			for a := range m.Ops {
-				m.Roots = append(m.Roots, []int{a})
-			}
-		}
-	}
 	rep.Bounds["servers"] = n
 	rep.Bounds["weights"] = ws
 	rep.Bounds["extra_large_weights_thorough"] = tier == "thorough"
 	rep.Rule = "BFS to fixpoint over NextServer/ServeHTTP/Upsert(s,w)/Remove(s) on the real RoundRobin, exact state key = reflective dump (pool order, weights, iterator index and level); in every reached state the next W=sum(w)/gcd selections must contain server i exactly w_i/gcd times; non-trivial = windows checked on a servable pool"
 	rep.Require("windows_checked", "windows_with_common_factor", "windows_with_zero_weight_server")
-	r := m.Run(rep)
+	// one strongly connected state space: level-synchronous distributed BFS over all workers
+	r := m.RunDistributed(rep, sh, os.Getenv("VERIF_GANG_DIR"))
 	rep.Bounds["search"] = r.Describe()
 	if !r.Complete {
 		rep.Exhaustive = false
